@@ -23,6 +23,16 @@ inductive Err
   | noOverlap
   /-- `GRID_ERROR + __LINE__` of `c_voronoi`: `npoints < 1` -/
   | noPoints
+  /-- `GRID_ERROR + __LINE__` of `c_voronoi`: `nrows < 1 || ncols < 1` (cell coordinates use `idxcell % ncols`) -/
+  | badGrid
+  /-- `grid.voronoi`: `catchment._idxcells_area is None` (`ValueError ... please delineate the area`) -/
+  | notDelineated
+  /-- `Catchment.intersect` on a catchment whose selected cell list is `None`: `cell2coord(None)` fails in numpy
+  with `TypeError: int() argument must be ... not 'NoneType'` (there is no guard in `intersect`) -/
+  | cellsNone
+  /-- the Cython wrapper's `assert xypoints.shape[1] == 2` (`AssertionError`): after `np.atleast_2d` the points
+  array does not have two columns -/
+  | badShape
   deriving DecidableEq, Repr
 
 /-! ## `c_intersect` -/
@@ -126,6 +136,19 @@ def intersect (coarse fine : Geom α) (cells : List Int) : Except Err (AreaGrid 
           data := (List.range anrows.toNat).map fun (i : Nat) =>
                     (List.range ancols.toNat).map fun (j : Nat) => f (i : Int) (j : Int) }
 
+/-- the state of a `Catchment` object this property reads: the flow-direction grid geometry and the two cell
+lists (`None` before `delineate_area`) -/
+structure Catchment (α : Type) where
+  fine : Geom α
+  area : Option (List Int)
+  filled : Option (List Int)
+
+/-- `catchment.intersect(grid, filled)`: `cells = self._idxcells_area_filled if filled else self._idxcells_area` -/
+def Catchment.intersect (ca : Catchment α) (grid : Geom α) (filled : Bool) : Except Err (AreaGrid α) :=
+  match (if filled then ca.filled else ca.area) with
+  | none => .error .cellsNone
+  | some cells => C16.intersect grid ca.fine cells
+
 end PyIntersect
 
 /-! ## `c_voronoi` -/
@@ -164,13 +187,46 @@ def dists (dist : α → α → α) (g : Geom α) (pts : List (α × α)) (c : I
 def counts (dist : α → α → α) (g : Geom α) (cells : List Int) (pts : List (α × α)) : List α :=
   cells.foldl (fun ws c => incr ws (nearest (dists dist g pts c))) (pts.map fun _ => 0)
 
-/-- `c_voronoi`: `npoints < 1` is rejected; `weights[j] /= (double)ncells`. With `ncells = 0` every weight is
-`0.0/0.0`, a NaN: `none` (the division is not totalised). -/
+/-- `c_voronoi`: `npoints < 1` is rejected, then `nrows < 1 || ncols < 1`; `weights[j] /= (double)ncells`. With
+`ncells = 0` every weight is `0.0/0.0`, a NaN: `none` (the division is not totalised). -/
 def cVoronoi (dist : α → α → α) (g : Geom α) (cells : List Int) (pts : List (α × α)) :
     Except Err (List (Option α)) :=
   if pts.length < 1 then .error .noPoints
+  else if g.nrows < 1 ∨ g.ncols < 1 then .error .badGrid
   else if cells.length = 0 then .ok (pts.map fun _ => none)
   else .ok ((counts dist g cells pts).map fun w => some (w / Trunc.ofInt (cells.length : Int)))
+
+/-- what `grid.voronoi` may be handed as `xypoints`, as `np.atleast_2d(...)` sees it -/
+inductive PtsArg (α : Type) where
+  /-- a scalar: `atleast_2d` gives shape `(1, 1)` -/
+  | scalar (x : α)
+  /-- a flat sequence of `n` numbers: shape `(1, n)` — `[x, y]` is one point -/
+  | flat (xs : List α)
+  /-- `n` rows of equal width `w` (shape `(n, w)`; `n = 0` only as an explicit `(0, w)` array) -/
+  | rows (w : Nat) (rs : List (List α))
+
+/-- `np.atleast_2d(xypoints)`: `(number of columns, rows)` -/
+def PtsArg.shape2d : PtsArg α → Nat × List (List α)
+  | .scalar x => (1, [[x]])
+  | .flat xs => (xs.length, [xs])
+  | .rows w rs => (w, rs)
+
+/-- the rows of a two-column array as points -/
+def rowsToPts : List (List α) → List (α × α)
+  | [] => []
+  | (x :: y :: _) :: t => (x, y) :: rowsToPts t
+  | _ :: t => rowsToPts t
+
+/-- `grid.voronoi(catchment, xypoints)`: the `None` guard, `atleast_2d`, the wrapper's column assert, the kernel.
+Always the unfilled area. -/
+def voronoiPy (dist : α → α → α) (g : Geom α) (area : Option (List Int)) (arg : PtsArg α) :
+    Except Err (List (Option α)) :=
+  match area with
+  | none => .error .notDelineated
+  | some cells =>
+    let sh := arg.shape2d
+    if sh.1 ≠ 2 then .error .badShape
+    else cVoronoi dist g cells (rowsToPts sh.2)
 
 end Voronoi
 
